@@ -261,3 +261,51 @@ Definition ends_out_of_fuel (c : ncase) : bool :=
 Definition spec_violations_c16k (cs : list ncase) : list nat :=
   find_idx (fun c => negb (nspec_ok fl_c16 c) && negb (ends_out_of_fuel c)) cs.
 Definition known_c16_livelock (cs : list ncase) : list nat := find_idx ends_out_of_fuel cs.
+
+(* ---------- C07 with independent reception tags ---------- *)
+(* The checker c07_detection reads the tag of the last received tick from the observed status itself. This second
+   walker recomputes it from the EVENTS (a tick of j is received when the origin is valid, j is not ISOLATED and the
+   local instance is CHECKED or RUNNING; it is tagged with the local counter at that moment, or 0 when j's own counter
+   went backwards = restart), so that a wrong tag in the implementation is visible as a completeness / accuracy failure. *)
+Definition ist_remote (j : Z) (l : list (Z * Z * Z * Z * Z)) : Z :=
+  match ist_entry j l with Some (_, r, _, _) => r | None => 0 end.
+
+Fixpoint c07_tag_walk (me inactivity : Z) (tags : alist Z) (prev_ist : list (Z * Z * Z * Z * Z))
+                      (evs : list event) (obss : list obs) : bool :=
+  match evs, obss with
+  | e :: re, NOk o :: ro =>
+      let local_ok := match ist_state me prev_ist with Some 2 | Some 3 => true | _ => false end in
+      let tags' :=
+        match e with
+        | PeerTick og cnt _ =>
+            match ev_resolved e with
+            | Some j =>
+                if local_ok && negb (match ist_state j prev_ist with Some 5 => true | _ => false end)
+                then aset j (if Z.ltb cnt (ist_remote j prev_ist) then 0 else ist_remote me prev_ist) tags
+                else tags
+            | None => tags
+            end
+        | _ => tags
+        end in
+      let ok :=
+        match e with
+        | LocalTick cnt _ _ =>
+            forallb (fun t => match t with (j, s, _, _, _) =>
+              if Z.eqb j me then true
+              else match aget j tags, ist_state j (obs_ist o) with
+                   | Some tg, Some s' =>
+                       let active := Z.eqb s 1 || Z.eqb s 2 || Z.eqb s 3 || Z.eqb s 4 in
+                       if active && Z.ltb inactivity (cnt - tg) then Z.eqb s' 0 || Z.eqb s' 5
+                       else negb (Z.eqb s 3) || Z.eqb s' 3
+                   | _, _ => true
+                   end end) prev_ist
+        | _ => true
+        end in
+      ok && c07_tag_walk me inactivity tags' (obs_ist o) re ro
+  | _, _ => true
+  end.
+
+Definition c07_tags_ok (c : ncase) : bool :=
+  match c with (n, evs, obss) => c07_tag_walk (n_me n) (o_inactivity (n_opts n)) [] (init_ist n) evs obss end.
+Definition spec_violations_c07t (cs : list ncase) : list nat :=
+  find_idx (fun c => negb (nspec_ok fl_c07 c) || negb (c07_tags_ok c)) cs.
